@@ -227,6 +227,34 @@ def fam_spectator(rng, n, tag="spec"):
         out.append(s)
     return out
 
+def fam_spectator_reorder_at_drop(rng, n, tag="srd"):
+    """C06: the host drops its remote player (disconnect_player, or the player dies and is timed out) while the
+    host->spectator link reorders packets all through that period, and the spectator is caught up (small
+    max_frames_behind): an input packet sent before the drop and handled after one sent after it must not make the
+    spectator forget that the player is disconnected"""
+    out = []
+    for i in range(n):
+        to = rng.choice([600, 1000])
+        s = Scen("%s_%d" % (tag, i), players=2, window=rng.choice([2, 8]), lat=rng.choice([5, 10]), seed=rng.randrange(1 << 30),
+                 sparse=rng.randrange(2), pred=rng.choice(["repeat", "default"]), inputrun=rng.choice([1, 3]),
+                 timeout=to, notify=rng.choice([200, 500]))
+        s.p2p(1, [0]); s.p2p(2, [1])
+        s.spec(9, 1, 2, catchup=rng.choice([1, 2, 3]), maxbehind=rng.choice([1, 1, 2]))
+        t_drop = rng.randrange(900, 1800)
+        how = rng.choice(["disc", "kill"])
+        end = t_drop + to + 1500
+        s.link(1, 9, faults=sorted(set((j, "delay", rng.choice([25, 40, 70])) for j in range(20, 260) if rng.random() < 0.3)))
+        s.ticks(1, 0, end, 16)
+        s.ticks(9, 5, end, 16)
+        if how == "kill":
+            s.ticks(2, 3, t_drop, 16)
+            s.at(t_drop, "kill", 2)
+        else:
+            s.ticks(2, 3, end, 16)
+            s.at(t_drop, "disc", 1, 1)
+        out.append(s)
+    return out
+
 def fam_death(rng, n, tag="death", three=False):
     """a peer dies (stops sending) at some moment with some of its input still in flight; the
     survivors must notice on time and keep a coherent timeline"""
